@@ -435,6 +435,7 @@ class Env:
         self.lens: Dict[tuple, Term] = {}     # atom/array term -> known length poly
         self.versions: Dict[str, object] = {}  # canonical array name -> version tag (reads after stores)
         self.call_adapters: Dict[str, Callable] = {}
+        self.negated: set = set()              # canonical names whose value is the negative of the shared symbol
 
     def copy(self) -> 'Env':
         e = Env(self.rename)
@@ -442,6 +443,7 @@ class Env:
         e.lens = dict(self.lens)
         e.versions = dict(self.versions)
         e.call_adapters = self.call_adapters
+        e.negated = self.negated
         return e
 
     def cn(self, name: str) -> str:
@@ -455,6 +457,8 @@ class Env:
         c = self.cn(name)
         if c in self.vals:
             return self.vals[c]
+        if c in self.negated:
+            return neg(atom(('n', c)))
         return atom(('n', c))
 
     def set(self, name: str, value: Term):
@@ -594,7 +598,13 @@ def canon_expr(node: ast.AST, env: Env) -> Term:
         if is_poly(idx) and is_const(idx) and const_value(idx) < 0:
             idx = add(_len_of(bsa, env), idx)
         # versioned read after a store in the same region
-        return atom(('sub', _versioned(bsa, env), idx))
+        r = atom(('sub', _versioned(bsa, env), idx))
+        root = bsa
+        while root[0] == 'sub':
+            root = root[1]
+        if root[0] == 'n' and root[1] in env.negated:
+            return neg(r)
+        return r
     if isinstance(node, ast.Attribute):
         d = dotted(node)
         base = canon_expr(node.value, env)
